@@ -63,14 +63,14 @@ EMIT = {
     ],
     "thorough": [
         ("rx-paused", consts(ops=((R,), (R, CL)), maxops=4, total=4, env=("data", "peof", "reset"), emit=True)),
-        ("rx-unpaused-cancel", consts(ops=((R,), (R, CL)), maxops=4, total=4, paused=False,
+        ("rx-unpaused-cancel", consts(ops=((R,), (R, CL)), maxops=3, total=4, paused=False, burst=0,
                                       env=("data", "peof", "reset", "cancel"), emit=True)),
         ("rx-burst2", consts(ops=((R,), (CL,)), maxops=3, total=6, chunk=3, mbs=(1, 2, 4), burst=2,
                              env=("data", "peof", "cancel"), emit=True)),
         ("tx", consts(ops=((SN,), (SN, CL)), maxops=4, total=0, env=("drain", "reset", "cancel"), emit=True)),
-        ("tx-eof", consts(ops=((SN, EO), (SN, CL)), maxops=4, total=0, kcap=3, sizes=(2, 4),
+        ("tx-eof", consts(ops=((SN, EO), (SN, CL)), maxops=3, total=0, kcap=3, sizes=(2, 4),
                           env=("drain", "reset"), emit=True)),
-        ("duplex", consts(nt=3, ops=((R,), (SN,), (CL, EO)), maxops=4, total=3,
+        ("duplex", consts(nt=3, ops=((R,), (SN,), (CL, EO)), maxops=3, total=3,
                           env=("data", "peof", "drain", "reset"), emit=True)),
     ],
 }
